@@ -283,6 +283,28 @@ impl Space {
     }
 }
 
+/// Verification hooks (see `voronoi/verif_hooks.rs`): read-only views of the grid.
+#[cfg(meshless_voro_verif)]
+impl Space {
+    /// Grid dimensions, anchor and width of every cell, and the cell id of every particle (indexed by particle id).
+    pub(crate) fn verif_grid(&self) -> ([u32; 3], Vec<(DVec3, DVec3)>, Vec<usize>) {
+        let mut cids = vec![usize::MAX; self.parts.len()];
+        for part in self.parts.iter() {
+            cids[part.id()] = part.cid();
+        }
+        (
+            [self.cdim.x, self.cdim.y, self.cdim.z],
+            self.cells.iter().map(|c| (c.loc, c.width)).collect(),
+            cids,
+        )
+    }
+
+    /// `get_r_ring`
+    pub(crate) fn verif_r_ring(&self, cid: usize, r: i32) -> Vec<usize> {
+        self.get_r_ring(cid, r)
+    }
+}
+
 #[cfg(test)]
 mod tests {
     use super::*;
